@@ -7,7 +7,8 @@ Model: `Karp/Model/WeightOrder.lean` (OrderByWeight, sort.Slice as a relation),
        `Karp/Model/FirstSuccess.lean` (parallelizeUntil + the publication protocol of addToNewNodeClaim),
        `Karp/Model/PriceOrder.lean` (OrderByPrice, Truncate, Cheapest, ToNodeClaim truncation),
        `Karp/Model/PoolFilter.lean` (the NodePool filter of Provisioner.NewScheduler: dynamic, Ready is True, not deleting),
-       `Karp/Model/Relax.lean` (PreferNoSchedule taints: the flag of NewScheduler, trySchedule + Preferences.Relax).
+       `Karp/Model/Relax.lean` (PreferNoSchedule taints: the flag of NewScheduler, trySchedule + Preferences.Relax),
+       `Karp/Model/MinValuesFilter.lean` (minValues: NewScheduler's NodePool-level pre-filter and CanAdd's per-pod filter).
 Spec:  `Karp/Spec/WeightPrice.lean`.
 -/
 import Karp.Proofs.WeightPriceLemmas
@@ -19,9 +20,10 @@ import Karp.Proofs.PoolFilterLemmas
 import Karp.Spec.WeightPrice
 import Karp.Spec.PoolPass
 import Karp.Model.Relax
+import Karp.Model.MinValuesFilter
 
 namespace Karp.C19
-open List Karp.WeightOrder Karp.PriceOrder Karp.FirstSuccess Karp.ReservedFallback Karp.Spec.WeightPrice Karp.PoolFilter Karp.Relax
+open List Karp.WeightOrder Karp.PriceOrder Karp.FirstSuccess Karp.ReservedFallback Karp.Spec.WeightPrice Karp.PoolFilter Karp.Relax Karp.MinValuesFilter
 
 /-! ## Fact expectations over the regenerated source facts -/
 
@@ -66,6 +68,14 @@ theorem fact_tolerate_flag_accumulates :
     Karp.Gen.C19Facts.tolerateFlagAssigns.head? = some "false" ∧
     Karp.Gen.C19Facts.tolerateFlagAssigns.tail.all (fun a => a == "true" || a == "or-self") = true ∧
     Karp.Gen.C19Facts.tolerateFlagAssigns.tail ≠ [] := by decide
+
+/-- minValues are relaxed under the same condition — the operator policy is BestEffort — where `NewScheduler` decides
+    whether a NodePool becomes a template at all and where `CanAdd` evaluates a pod against a template
+    (`Model/MinValuesFilter.poolOffers` uses one flag for both): a pre-filter stricter than the per-pod filter would
+    hide a higher-weight pool that is able to host -/
+theorem fact_minvalues_relaxed_alike :
+    Karp.Gen.C19Facts.prefilterRelaxArg = ["minValuesPolicy == karpopts.MinValuesPolicyBestEffort"] ∧
+    Karp.Gen.C19Facts.canAddRelaxArg = Karp.Gen.C19Facts.prefilterRelaxArg := by decide
 
 /-! ## Weight order -/
 
@@ -502,6 +512,83 @@ theorem C19_preference_never_decides_feasibility (p : Spec.PoolPass.PPool) (pod 
   · simp
   · intro h; simp only [Bool.and_eq_true] at h; exact h.1
 
+/-! ## minValues: the pre-filter that builds the templates never hides a pool that can host -/
+
+/-- the specification's reading of minValues: the pool offers the pod a node iff some instance type can run it and the
+    number of such types meets minValues, unless the BestEffort policy waives it -/
+def specOffers (bestEffort : Bool) (minValues nPod : Nat) : Bool :=
+  decide (0 < nPod) && (bestEffort || decide (minValues ≤ nPod))
+
+/-- **C19_prefilter_never_drops_a_host** — `NewScheduler`'s NodePool-level pre-filter followed by `CanAdd`'s per-pod
+    filter (both relaxing minValues exactly under BestEffort) says "this pool offers the pod a node" iff the
+    specification does: what the pod leaves of the catalog (`nPod ≤ nPool`) is non-empty and meets minValues, or the
+    policy waives them.  In particular the pre-filter, which knows no pod, never removes a pool that could host one. -/
+theorem C19_prefilter_never_drops_a_host (bestEffort : Bool) (minValues nPool nPod : Nat) (h : nPod ≤ nPool) :
+    poolOffers bestEffort minValues nPool nPod = specOffers bestEffort minValues nPod := by
+  unfold poolOffers templateKept filterKeeps specOffers
+  cases bestEffort <;> simp <;> omega
+
+/-- **C19_minvalues_weight_priority** (first sentence of the property with minValues; all pool sets, both policies,
+    every minValues / catalog assignment, every degree of parallelism, every interleaving) — only the pools that
+    survive the pre-filter become templates, in weight order.  If the pod opens a node in `p`, the specification
+    agrees that `p` offers it one, and EVERY pool ranking before `p` — template or not — does not; if it opens none,
+    no pool does.  A pool whose own catalog cannot meet its minValues keeps its rank under BestEffort. -/
+theorem C19_minvalues_weight_priority (pools ord : List Pool) (bestEffort : Bool) (mv nPool nPod : Pool → Nat)
+    (hle : ∀ q ∈ pools, nPod q ≤ nPool q) (n : Int) (sched : List Nat)
+    (hsort : allowedSort before (pools.filter (fun p => templateKept bestEffort (mv p) (nPool p))) ord = true)
+    (hdone : allDone (run (ord.map (fun p => if filterKeeps bestEffort (mv p) (nPod p) then Outcome.ok else .fail))
+      (init (effectiveWorkers n) (ord.map (fun p => if filterKeeps bestEffort (mv p) (nPod p) then Outcome.ok else .fail))) sched) = true) :
+    match result (run (ord.map (fun p => if filterKeeps bestEffort (mv p) (nPod p) then Outcome.ok else .fail))
+      (init (effectiveWorkers n) (ord.map (fun p => if filterKeeps bestEffort (mv p) (nPod p) then Outcome.ok else .fail))) sched) with
+    | some i => ∃ p, ord[i]? = some p ∧ p ∈ pools ∧ specOffers bestEffort (mv p) (nPod p) = true ∧
+        ∀ q ∈ pools, (before q p = true ∨ p.weight < q.weight) → specOffers bestEffort (mv q) (nPod q) = false
+    | none => ∀ q ∈ pools, specOffers bestEffort (mv q) (nPod q) = false := by
+  have h := C19_weight_priority _ ord (fun p => if filterKeeps bestEffort (mv p) (nPod p) then Outcome.ok else .fail) n sched hsort hdone
+  simp only [allowedSort, Bool.and_eq_true] at hsort
+  have hperm : (pools.filter (fun p => templateKept bestEffort (mv p) (nPool p))) ~ ord := isPerm_iff.mp hsort.1
+  -- a pool that is not a template, or whose evaluation fails, does not offer the pod a node
+  have hno : ∀ q ∈ pools, (templateKept bestEffort (mv q) (nPool q) = true →
+      (if filterKeeps bestEffort (mv q) (nPod q) then Outcome.ok else Outcome.fail) = .fail) →
+      specOffers bestEffort (mv q) (nPod q) = false := by
+    intro q hq hf
+    rw [← C19_prefilter_never_drops_a_host bestEffort (mv q) (nPool q) (nPod q) (hle q hq)]
+    unfold poolOffers
+    cases hk : templateKept bestEffort (mv q) (nPool q) with
+    | false => rfl
+    | true =>
+      have := hf hk
+      cases hfk : filterKeeps bestEffort (mv q) (nPod q) with
+      | false => rfl
+      | true => rw [hfk] at this; simp at this
+  generalize result (run (ord.map (fun p => if filterKeeps bestEffort (mv p) (nPod p) then Outcome.ok else .fail))
+      (init (effectiveWorkers n) (ord.map (fun p => if filterKeeps bestEffort (mv p) (nPod p) then Outcome.ok else .fail))) sched) = res at h ⊢
+  cases res with
+  | some i =>
+    obtain ⟨p, hp, hok, hall⟩ := h
+    obtain ⟨hpp, hk⟩ := mem_filter.mp (hperm.mem_iff.mpr (mem_of_getElem? hp))
+    refine ⟨p, hp, hpp, ?_, fun q hq hr => hno q hq (fun hkq => hall q (mem_filter.mpr ⟨hq, hkq⟩) hr)⟩
+    rw [← C19_prefilter_never_drops_a_host bestEffort (mv p) (nPool p) (nPod p) (hle p hpp)]
+    unfold poolOffers
+    have hfk : filterKeeps bestEffort (mv p) (nPod p) = true := by
+      cases hfk : filterKeeps bestEffort (mv p) (nPod p) with
+      | true => rfl
+      | false => simp [hfk] at hok
+    simp [hk, hfk]
+  | none =>
+    rcases h with h | ⟨p, _, hres, _⟩
+    · exact fun q hq => hno q hq (fun hkq => h q (mem_filter.mpr ⟨hq, hkq⟩))
+    · split at hres <;> cases hres
+
+/-- the pass specification's "able to host" is the pool being usable, the taints tolerated, and `specOffers` on the
+    number of instance types that can run the group -/
+theorem C19_hosts_reads_minvalues (p : Spec.PoolPass.PPool) (group : List Spec.PoolPass.PPod) :
+    Spec.PoolPass.hosts p group = (Spec.PoolPass.poolUsable p && group.all (Spec.PoolPass.tolerates p) &&
+      specOffers p.relaxMin p.minTypes (Spec.PoolPass.optionsFor p group).length) := by
+  unfold Spec.PoolPass.hosts Spec.PoolPass.minValuesOk specOffers
+  cases h : Spec.PoolPass.optionsFor p group with
+  | nil => simp
+  | cons a l => simp [Bool.and_assoc]
+
 /-! ## Whole passes with capacity reservations -/
 
 /-- **C19_reserved_pass_priority** (all pool sets, all pod batches; `Model/ReservedFallback.pass` = the pass in which
@@ -716,6 +803,20 @@ example : place (tolerateFlag ([pC, pB, pA, pD].map softEx))
     (result (run ([pC, pB, pA, pD].map (roundOutcome hostOnlyTop softEx true)) (init (effectiveWorkers 2) ([pC, pB, pA, pD].map (roundOutcome hostOnlyTop softEx true))) [0, 1, 0, 1, 0, 1, 0, 1, 0, 1]))
     (waits ([pC, pB, pA, pD].map (roundOutcome hostOnlyTop softEx true)))
     (result (run ([pC, pB, pA, pD].map (roundOutcome hostOnlyTop softEx false)) (init (effectiveWorkers 2) ([pC, pB, pA, pD].map (roundOutcome hostOnlyTop softEx false))) [0, 1, 0, 1, 1, 1, 1, 1, 1, 1])) = some 0 := by decide
+
+/-- what goes wrong when the two sites disagree: with the pre-filter strict and the per-pod filter relaxed, a pool with
+    minValues 3 and two usable types is dropped under BestEffort although the specification says it offers a node -/
+example : (templateKept false 3 2 && filterKeeps true 3 2) = false ∧ specOffers true 3 2 = true ∧
+    poolOffers true 3 2 2 = true ∧ poolOffers false 3 2 2 = false := by decide
+
+def mvEx (p : Pool) : Nat := if p.weight = 50 then 3 else 0
+def nEx (p : Pool) : Nat := if p.weight = 50 then 2 else 1
+example := C19_minvalues_weight_priority [pA, pD, pC, pB] [pC, pB, pA, pD] true mvEx nEx nEx (fun _ _ => Nat.le_refl _) 2
+  [0, 1, 0, 1] (by decide) (by decide)
+example : result (run ([pC, pB, pA, pD].map (fun p => if filterKeeps true (mvEx p) (nEx p) then Outcome.ok else .fail))
+    (init (effectiveWorkers 2) ([pC, pB, pA, pD].map (fun p => if filterKeeps true (mvEx p) (nEx p) then Outcome.ok else .fail))) [0, 1, 0, 1]) = some 0 := by decide
+/-- the same pools under Strict: the weight-50 pool is no template, the pod lands in "b" -/
+example : allowedSort before ([pA, pD, pC, pB].filter (fun p => templateKept false (mvEx p) (nEx p))) [pB, pA, pD] = true := by decide
 
 /-- the pool filter on concrete condition lists: healthy pool; NodeClass not resolved yet (Ready Unknown); nothing
     reported yet; Ready False; failing registrations do not make a pool unready; static and deleting pools -/
